@@ -110,18 +110,26 @@ enum Head {
 
 #[derive(Clone, Debug)]
 enum Item {
-    Key { lab: Lab, k: String, v: String },
+    /// next: a stray line that stays glued right behind this key line (the ValueOnNextLine fault)
+    Key { lab: Lab, k: String, v: String, next: Option<(Lab, String)> },
     Sect { lab: Lab, head: Head, ob: String, cb: String, kids: Vec<Item> },
     /// kids = None: the file does not exist
     Inc { lab: Option<Lab>, v: String, kids: Option<Vec<Item>> },
 }
 
 fn items_of(es: &[Entry], f: usize, pre: &[usize], ast: &Ast, depth: usize) -> Vec<Item> {
-    es.iter().enumerate().map(|(i, e)| {
+    es.iter().enumerate().filter(|(i, e)| !(e.t == "raw" && *i > 0 && es[*i - 1].t == "key")).map(|(i, e)| {
         let mut p = pre.to_vec();
         p.push(i + 1);
         match e.t.as_str() {
-            "key" => Item::Key { lab: (f, p), k: e.k.clone(), v: e.v.clone() },
+            "key" | "raw" => {
+                let next = es.get(i + 1).filter(|n| n.t == "raw" && e.t == "key").map(|n| {
+                    let mut np = pre.to_vec();
+                    np.push(i + 2);
+                    ((f, np), n.k.clone())
+                });
+                Item::Key { lab: (f, p), k: e.k.clone(), v: e.v.clone(), next }
+            }
             "inc" => {
                 let kids = if e.f == 0 || e.f > ast.files.len() || depth > 8 { None }
                            else { Some(items_of(&ast.files[e.f - 1], e.f, &[], ast, depth + 1)) };
@@ -308,10 +316,14 @@ impl<'a> Emitter<'a> {
     fn emit(&mut self, items: &[Item], depth: usize, fi: usize, rng: &mut Rng) {
         for it in items {
             match it {
-                Item::Key { lab, k, v } => {
+                Item::Key { lab, k, v, next } => {
                     let c = if v.is_empty() { self.na(k) }
                             else { format!("{}{}{}", self.na(k), self.sep(rng), self.na(&v.replace('@', &self.r.bl_path))) };
                     self.line(fi, depth, c, Some((lab, "line")), rng);
+                    if let Some((nlab, text)) = next {
+                        let c = self.na(text);
+                        self.line(fi, depth, c, Some((nlab, "line")), rng);
+                    }
                 }
                 Item::Inc { lab, v, kids } => {
                     let path = match kids {
@@ -515,6 +527,8 @@ fn disagree(exp: &Value, obs: &Obs, r: &Rendered, lay: &Layout) -> Option<String
     let kind = exp["kind"].as_str().unwrap_or("");
     match kind {
         "ok" => {
+            // a quotation mark inside a string / a route pattern: the literal reading or a rejection (Config.tla OddQuotes)
+            if exp["lenient"].as_bool().unwrap_or(false) && (obs.kind == "parse-error" || obs.kind == "tree-error") { return None; }
             if obs.kind != "ok" { return Some(format!("expected the described configuration, got {} ({} line {}: {})", obs.kind, obs.file, obs.line, obs.msg)); }
             let want = map_strings(&exp["cfg"], "~", lay.na);
             if want != obs.cfg {
@@ -772,9 +786,13 @@ fn inject(ast: &mut Ast, rng: &mut Rng) {
     }).cloned().collect();
     let (pf, p) = if !numeric.is_empty() && rng.chance(1, 4) { rng.pick(&numeric).clone() } else { rng.pick(&ps).clone() };
     let e = entry_at(if pf == 0 { &mut ast.srv.es } else { &mut ast.files[pf - 1] }, &p);
-    let cls: &str;
+    let mut cls: &str;
+    let mut next_line: Option<String> = None;
     if e.t == "inc" {
-        match rng.below(4) {
+        match rng.below(7) {
+            4 => { e.v = "\"".to_string(); cls = "LoneQuote"; }
+            5 => { e.v = q(""); cls = "EmptyString"; }
+            6 => { e.v = q("\""); cls = "TripleQuote"; }
             0 => { e.v = String::new(); cls = "MissingValue"; }
             1 => { e.v = q("@")[..2].to_string(); cls = "UnterminatedQuote"; }
             2 => { e.f = 0; cls = "NoSuchInclude"; }
@@ -783,13 +801,19 @@ fn inject(ast: &mut Ast, rng: &mut Rng) {
     } else if e.t == "key" {
         let numeric = e.v.chars().next().map(|c| c.is_ascii_digit()).unwrap_or(false);
         let quoted = e.v.starts_with('"');
-        let mut opts = vec!["MissingValue", "NonAscii"];
+        let mut opts = vec!["MissingValue", "NonAscii", "LoneQuote", "BlankValue", "EmptyString", "TripleQuote", "UnterminatedQuote1", "ValueOnNextLine"];
         if numeric { opts.extend(["BadNumber", "UnknownUnit", "TooBig", "OutOfRange"]); }
         if quoted { opts.push("UnterminatedQuote"); }
         if quoted && ["mode", "level", "load_balancer_mode"].contains(&e.k.as_str()) { opts.push("BadEnum"); }
         cls = *rng.pick(&opts);
         match cls {
             "MissingValue" => e.v = String::new(),
+            "LoneQuote" => e.v = "\"".to_string(),
+            "BlankValue" => e.v = "   ".to_string(),
+            "EmptyString" => e.v = q(""),
+            "TripleQuote" => e.v = q("\""),
+            "UnterminatedQuote1" => { e.v = if rng.chance(1, 2) { "\"x".to_string() } else { "x\"".to_string() }; cls = "UnterminatedQuote"; }
+            "ValueOnNextLine" => { next_line = Some(if rng.chance(1, 2) { "\"".to_string() } else { e.v.clone() }); e.v = String::new(); }
             "BadNumber" => e.v = rng.pick(&[format!("{}x", e.v), "1.5".to_string(), "--1".to_string(), "1e3".to_string()]).clone(),
             "UnknownUnit" => { let d: String = e.v.chars().filter(|c| c.is_ascii_digit()).collect(); e.v = format!("{}{}", d, rng.pick(&["T", "KB", " M", "KK"])); }
             "TooBig" => e.v = rng.pick(&["9999999999G", "8589934592G", "99999999999999999999", "17179869184G", "17179869185G"]).to_string(),
@@ -810,8 +834,20 @@ fn inject(ast: &mut Ast, rng: &mut Rng) {
             _ => {
                 if e.t == "host" {
                     let t = e.ps[0].clone();
-                    e.ps[0] = if rng.chance(1, 2) { t[..t.len() - 1].to_string() } else { t[1..].to_string() };
-                    cls = "UnterminatedQuote";
+                    match rng.below(5) {
+                        0 => { e.ps[0] = "\"".to_string(); cls = "LoneQuote"; }
+                        1 => { e.ps[0] = q(""); cls = "EmptyString"; }
+                        2 => { e.ps[0] = q("\""); cls = "TripleQuote"; }
+                        _ => { e.ps[0] = if rng.chance(1, 2) { t[..t.len() - 1].to_string() } else { t[1..].to_string() }; cls = "UnterminatedQuote"; }
+                    }
+                } else if e.t == "route" && rng.chance(1, 2) {
+                    let n = e.ps.len();
+                    match rng.below(3) {
+                        0 => e.ps = vec!["\"".to_string()],
+                        1 => e.ps[0] = format!("\"{}", e.ps[0]),
+                        _ => e.ps[n - 1] = q(&e.ps[n - 1]),
+                    }
+                    cls = "QuoteInPattern";
                 } else if e.t == "route" {
                     e.es.retain(|x| !["file", "directory", "proxy", "redirect", "websocket"].contains(&x.k.as_str()));
                     cls = "RouteWithoutType";
@@ -819,7 +855,18 @@ fn inject(ast: &mut Ast, rng: &mut Rng) {
             }
         }
     }
+    if let Some(k) = next_line {
+        // the key stands alone; what should be its value follows on the next line
+        let list = list_at(if pf == 0 { &mut ast.srv.es } else { &mut ast.files[pf - 1] }, &p);
+        let mut raw = key(&k, "");
+        raw.t = "raw".into();
+        list.insert(p[p.len() - 1], raw);
+    }
     ast.fault = (cls.to_string(), pf, p);
+}
+
+fn list_at<'a>(es: &'a mut Vec<Entry>, p: &[usize]) -> &'a mut Vec<Entry> {
+    if p.len() == 1 { es } else { list_at(&mut es[p[0] - 1].es, &p[1..]) }
 }
 
 fn random(dir: &str, n: usize) {
